@@ -250,7 +250,11 @@ def main(argv):
     sys.path.insert(0, os.path.join(VERIF, "analysis", "rules"))
     mod = importlib.import_module(pid)
     res = Result(pid, tier)
-    mod.run(prog, res)
+    import grammar_run, gram
+    try:
+        mod.run(prog, res)
+    except grammar_run.AIUnavailable as e:
+        gram.ai_unavailable(res, e)      # fail closed: the rules of this module that need the interpreter were not evaluated
     stats = {c: len(prog.by_crate[c]) for c in CRATES}
     stats["bodies_total"] = sum(stats.values())
     if want is not None:
